@@ -324,6 +324,7 @@ Proof.
   { apply (parse_compose_numeric Network 4 L (be_enc 4 L) [] (pl ++ s)); [exact In4|change (256 ^ 4) with 4294967296; lia|].
     rewrite (compose_numeric_ok Network 4 _ In4) by (change (256 ^ 4) with 4294967296; lia). reflexivity. }
   rewrite PN. cbn [bind].
+  destruct (Z.gtb_spec L (4 + (L + zlen s) - 0 - 4)); [lia|].
   assert (NEG : (if L =? 0 then Ok false
                  else match nth_error (be_enc 4 L ++ pl ++ s) (Z.to_nat (0 + 4)) with
                       | Some b => Ok (128 <=? b2z b) | None => Err (Leak IndexError) end) = Ok false).
